@@ -156,6 +156,9 @@ func equals(t types.Type, x, y value) bool {
 		return x == y.(*value)
 	case chan value:
 		return x == y.(chan value)
+	case *channel:
+		yc, _ := y.(*channel)
+		return x == yc
 	case structure:
 		return x.eq(t, y)
 	case array:
